@@ -108,6 +108,7 @@ def bledgerStep (t : Nat) (e : IEv) (l : BLedger) : BLedger × Option Bool :=
   | .isAllowed ip => (l, some (l.allowed t ip))
   | .asyncRemove _ => (l, none)
   | .cleanup => (l, none)
+  | .restart => (l, none)   -- a blacklist is a blacklist, whichever manager instance answers
 
 def bspecRun : List (Nat × IEv) → BLedger → List (Option Bool)
   | [], _ => []
